@@ -9,7 +9,7 @@ From V Require Import Base.Int Base.IO Base.Utf8 Model.Scan Model.DateTime Model
   Spec.Gregorian Proofs.C08Sweeps Proofs.C04 Proofs.Utf8 Proofs.Scan Proofs.C11 Proofs.C11Scan Proofs.C11Resolve Proofs.C11Reader Proofs.C11Write Proofs.C11Roundtrip Proofs.C11RoundtripThm.
 From V Require Proofs.C14 Proofs.C13Safe.
 From V Require Import Proofs.C11Total.
-From V Require Import Spec.Rfc2822Lenient Proofs.C11Sound Proofs.C11ResolveInv Proofs.C11Exact Proofs.C11Holds.
+From V Require Import Spec.Rfc2822Lenient Proofs.C11Sound Proofs.C11ResolveInv Proofs.C11Exact Proofs.C11Holds Proofs.C11Lenient.
 Import ListNotations.
 Open Scope Z_scope.
 
@@ -58,7 +58,8 @@ Proof. exact scan_complete. Qed.
 Print Assumptions C11_reader_scan_complete.
 
 (* reader_complete: ... and the result of DateTime::parse_from_rfc2822 is exactly the denoted value
-   (UTC reading, leap-second representation for :60, offset), printed in the case protocol *)
+   (UTC reading, leap-second representation for :60, offset), printed in the case protocol.
+   (The same over the larger lenient grammar: C11_reader_complete_lenient below.) *)
 Theorem C11_reader_complete : forall s f, utf8_valid s = true -> blen s <= u64_max ->
   recognise s = Some f -> valid f = true -> weekday_ok f = true -> representable f = true ->
   r2_parse s = enc5 (denote f).
@@ -243,9 +244,9 @@ Print Assumptions C11_resolution_sound.
      strict grammar & valid & consistent & representable  =>  accepted  =>  lenient grammar & valid & ...
    The two grammars differ ONLY in the white-space class (C11_lenient_white_space_witness; the real
    code accepts those strings too: corpus/C11/lenient_white_space.case).
-   Still open: acceptance of EVERY lenient-grammar string (the forward direction for [recognise_u],
-   i.e. C11_reader_scan_complete with [recognise_u] in place of [recognise]); it would turn the
-   bracket into a single iff over all strings. *)
+   The converse -- acceptance of EVERY lenient-grammar string with such fields -- is
+   C11_reader_complete_lenient below; the two together are the single iff over all strings,
+   C11_reader_accepts_iff. *)
 Theorem C11_reader_sound : forall s z, utf8_valid s = true -> blen s <= u64_max ->
   parse_from_rfc2822 s = Val (POk z) ->
   exists f, recognise_u s = Some f /\ valid f = true /\ weekday_ok f = true /\ representable f = true /\
@@ -255,7 +256,8 @@ Print Assumptions C11_reader_sound.
 
 (* two-way on the strict grammar: a string of the grammar is accepted EXACTLY when its fields are
    valid, the day of week consistent and the value representable (then with the denoted value:
-   C11_reader_complete); in every other case the result is an error value *)
+   C11_reader_complete); in every other case the result is an error value.
+   (Over ALL strings, with the lenient grammar: C11_reader_accepts_iff / C11_reader_decided below.) *)
 Theorem C11_reader_accepts_iff_on_grammar : forall s f, utf8_valid s = true -> blen s <= u64_max ->
   recognise s = Some f ->
   ((exists z, parse_from_rfc2822 s = Val (POk z)) <->
@@ -280,6 +282,82 @@ Example C11_lenient_white_space_witness :
   r2_parse lenient_example = VTup [VInt 2003; VInt 182; VInt 31957; VInt 0; VInt 7200].
 Proof. exact lenient_witness. Qed.
 Print Assumptions C11_lenient_white_space_witness.
+
+(* ---- THE READER IS DECIDED BY THE LENIENT GRAMMAR ON ALL STRINGS (Proofs/C11Lenient.v: the forward
+   scanning proof redone with str::trim_start runs of Unicode white space). *)
+
+(* scanning half, forward, for the lenient grammar: every well-formed string that [recognise_u]
+   recognises with valid fields (year within the supported range) is scanned completely, without a
+   trap, and sets exactly the fields of the specification; the numeric fields are non-negative.
+   Converse of C11_reader_scan_sound; supersedes C11_reader_scan_complete (strict grammar, which is
+   included in the lenient one: C11_strict_grammar_in_lenient) *)
+Theorem C11_reader_scan_complete_lenient : forall s f, utf8_valid s = true -> blen s <= u64_max ->
+  recognise_u s = Some f -> valid f = true -> Spec.Gregorian.year_in_range (year_of f) = true ->
+  parse_items_rfc2822 Parsed.parsed_new s = Val (POk (parsed_of f)) /\ Proofs.C11Resolve.fields_nonneg f.
+Proof. exact scan_complete_u. Qed.
+Print Assumptions C11_reader_scan_complete_lenient.
+
+(* reader_complete for the lenient grammar: for EVERY valid UTF-8 string that the lenient grammar
+   recognises with valid fields, a consistent day of week and a representable value,
+   DateTime::parse_from_rfc2822 returns Ok(z) with z exactly the denoted instant and offset
+   (supersedes C11_reader_complete, which has [recognise] in place of [recognise_u]) *)
+Theorem C11_reader_complete_lenient : forall s f, utf8_valid s = true -> blen s <= u64_max ->
+  recognise_u s = Some f -> valid f = true -> weekday_ok f = true -> representable f = true ->
+  exists z, parse_from_rfc2822 s = Val (POk z) /\ enc_dtz z = enc5 (denote f).
+Proof. exact reader_complete_u. Qed.
+Print Assumptions C11_reader_complete_lenient.
+
+(* ... and a day of week that is not the date's is refused there too *)
+Theorem C11_weekday_contradiction_rejected_lenient : forall s f, utf8_valid s = true -> blen s <= u64_max ->
+  recognise_u s = Some f -> valid f = true -> weekday_ok f = false -> representable f = true ->
+  r2_parse s = VErr (perr_name Impossible).
+Proof. exact weekday_contradiction_rejected_u. Qed.
+Print Assumptions C11_weekday_contradiction_rejected_lenient.
+
+(* reader_accepts_iff: for EVERY valid UTF-8 string s (of a length a Rust string can have) and every
+   value v of the case protocol, DateTime::parse_from_rfc2822(s) is Ok(z) with z printed as v
+   EXACTLY when s is a date-time of the (lenient-white-space) RFC 2822 grammar whose fields are
+   valid, whose day of week (if written) is the date's, whose value is representable, and v is the
+   denoted UTC reading and offset.  (z appears through its canonical encoding [enc_dtz] because the
+   model's date word carries redundant flag bits; C11_reader_sound / C11_reader_complete_lenient are
+   the two directions with z itself.)  This closes the bracket of C11_reader_sound: the accepted
+   language IS the lenient grammar with valid, consistent, representable fields.
+   Supersedes C11_reader_accepts_iff_on_grammar (strict grammar only). *)
+Theorem C11_reader_accepts_iff : forall s v, utf8_valid s = true -> blen s <= u64_max ->
+  ((exists z, parse_from_rfc2822 s = Val (POk z) /\ enc_dtz z = v) <->
+   (exists f, recognise_u s = Some f /\ valid f = true /\ weekday_ok f = true /\ representable f = true /\
+              v = enc5 (denote f))).
+Proof. exact reader_accepts_iff. Qed.
+Print Assumptions C11_reader_accepts_iff.
+Example C11_reader_accepts_iff_inhabited :
+  utf8_valid lenient_example = true /\ blen lenient_example <= u64_max /\ recognise lenient_example = None /\
+  (exists f, recognise_u lenient_example = Some f /\ valid f = true /\ weekday_ok f = true /\ representable f = true /\
+             VTup [VInt 2003; VInt 182; VInt 31957; VInt 0; VInt 7200] = enc5 (denote f)) /\
+  (exists z, parse_from_rfc2822 lenient_example = Val (POk z) /\
+             enc_dtz z = VTup [VInt 2003; VInt 182; VInt 31957; VInt 0; VInt 7200]).
+Proof. exact accepts_iff_witness. Qed.
+Print Assumptions C11_reader_accepts_iff_inhabited.
+
+(* acceptance alone: Ok is returned exactly on the strings of the lenient grammar with valid,
+   consistent, representable fields *)
+Theorem C11_reader_accepts_exactly_grammar : forall s, utf8_valid s = true -> blen s <= u64_max ->
+  ((exists z, parse_from_rfc2822 s = Val (POk z)) <->
+   (exists f, recognise_u s = Some f /\ valid f = true /\ weekday_ok f = true /\ representable f = true)).
+Proof. exact reader_accepts_iff_grammar. Qed.
+Print Assumptions C11_reader_accepts_exactly_grammar.
+
+(* the output on EVERY valid UTF-8 string is decided by the specification: the denoted value when
+   the lenient grammar recognises it with valid, consistent, representable fields, an error value
+   (never a trap) in every other case -- not in the grammar, or fields that are not valid /
+   consistent / representable (supersedes C11_reader_rejects_on_grammar) *)
+Theorem C11_reader_decided : forall s, utf8_valid s = true -> blen s <= u64_max ->
+  match recognise_u s with
+  | Some f => if valid f && weekday_ok f && representable f then r2_parse s = enc5 (denote f)
+              else exists e, r2_parse s = VErr (perr_name e)
+  | None => exists e, r2_parse s = VErr (perr_name e)
+  end.
+Proof. exact reader_decided. Qed.
+Print Assumptions C11_reader_decided.
 
 (* ---- the dispatcher and the judge *)
 Theorem C11_dispatch :
